@@ -55,6 +55,14 @@ func costFamily(name string, k int) string {
 		return "SELECT " + rep("s.t.c,\n", k) + "x FROM s.t"
 	case "join_chain":
 		return "SELECT * FROM t0 " + rep("JOIN t1 ON t0.a = t1.a\n", k)
+	case "union_dangling": // one long statement with very many statement keywords whose error is at its very end
+		return "SELECT a FROM t" + rep("\nUNION ALL SELECT a FROM t", k) + "\nUNION ALL"
+	case "broken_statements": // very many malformed statements
+		return rep("SELECT a FROM WHERE b = 1;\n", k)
+	case "stmts_last_broken": // very many well-formed statements and a malformed last one
+		return rep("SELECT a FROM t WHERE b = 1;\n", k) + "SELECT FROM"
+	case "keyword_soup": // statement keywords only: every token starts a statement that fails
+		return rep("SELECT INSERT UPDATE DELETE ", k)
 	case "union_chain":
 		return "SELECT a FROM t" + rep("\nUNION ALL SELECT a FROM t", k)
 	case "case_whens":
